@@ -589,7 +589,9 @@ MANIFEST = {
                  'monitors: use of an object whose count can be 0, frame reference balance, stale store; every finding replayed on the real '
                  'build; (2) solver-enumerated re-entrancy scenarios executed on both builds in separate processes (dangling-write '
                  'witness, before/after atomicity, reference-count growth, process death); (3) the pure-Python cache layer executed '
-                 'symbolically (CrossHair engine) with changed() injected before/after the uncached computation',
+                 'symbolically (CrossHair engine) with changed() injected before/after the uncached computation; (4) thread schedules of a '
+                 'lookup thread against a mutator thread over the Python lookup code: the mutator runs at the k-th line boundary, k a '
+                 'solver-enumerated schedule variable covering every boundary of the call',
     'text': 'Engine C decides, for every path of _lookup/_lookup1/_lookupAll/_subscriptions/_adapter_hook (helpers inlined) and every '
             'callback point on it, whether an object can be used after its last reference was dropped, whether the frame leaks or '
             'over-releases, and whether a pre-mutation answer can reach a live cache - for any number of unseen external references. The '
